@@ -3,6 +3,7 @@
   `Gen.dualGet`, `Gen.findWriterSrc` are regenerated from dualWriter.Get / Entry.findWriter.
 -/
 import Logg.Model.Pipeline
+import Logg.Gen.Facts
 
 namespace Logg.Props.C03
 open Logg
@@ -164,6 +165,14 @@ theorem told_before_write (settable : Wid → Bool) (fails : Nat → Bool) (star
     rcases he with ⟨w', _, h⟩ | ⟨x, _, h⟩
     · injection h with _ h2; exact h2.symm
     · cases h
+
+/-- (7) What printOut does with the destination list the routing selected, as the code says it now
+    (regenerated): the destination is told the severity, then written to once, and only then a failure
+    is reported; nothing leaves printOut before the Write, so every routed record is handed over, and
+    the list hands it to each member, whatever the earlier members answered. -/
+theorem handover_facts :
+    Gen.printOutSeq = ["tell", "write", "warn"] ∧ Gen.writesPerPrintOut = 1 ∧ Gen.printOutExitsBeforeWrite = 0 ∧
+    Gen.lwsWriteLoops = 1 ∧ Gen.lwsWriteEarlyExit = false := by decide
 
 -- non-vacuity: add then remove on a fresh logger; a leveled writer takes precedence; empty leveled list falls back
 example : cfgRun none [.addWriter 5, .addWriter 6, .removeWriter 5] = some { normal := [stdoutId, 6], error := [stderrId], leveled := [] } := by decide
